@@ -13,6 +13,7 @@ STRATA = [
     ("uf-random", 1500, 30000),
     ("uf-chains", 300, 6000),
     ("uf-tournament", 500, 8000),
+    ("uf-large", 40, 500),
     ("ft-random", 1500, 30000),
     ("ft-size-ctor", 300, 6000),
     ("uf-exhaustive", 1, 1),
@@ -76,6 +77,26 @@ def gen(stratum, rng, tier):
             if rng.random() < 0.2:
                 ops.append(("u", rng.randrange(n), rng.randrange(n)))
         return {"kind": "uf", "n": n, "ops": ops}
+    if stratum == "uf-large":
+        # hundreds to thousands of elements (indices above CPython's small-int cache, computed at run time so that equal
+        # indices are distinct objects), long chains, repeated and self unions far from index 0
+        n = rng.randint(300, 3000)
+        ops = []
+        hot = [rng.randrange(n) for _ in range(6)] + [n - 1, n - 2]
+        run = rng.randrange(n - 40)
+        for i in range(rng.randint(5, 30)):
+            ops.append(("u", run + i, run + i + 1))  # a chain
+        for _ in range(rng.randint(40, 160)):
+            k = rng.choice("uuuuufcqsg")
+            a = rng.choice(hot) if rng.random() < 0.5 else rng.randrange(n)
+            b = rng.choice(hot) if rng.random() < 0.5 else rng.randrange(n)
+            if k == "u" and rng.random() < 0.2:
+                b = a
+            if k == "u" and rng.random() < 0.2:
+                prev = [o for o in ops if o[0] == "u"]
+                _, a, b = rng.choice(prev)
+            ops.append((k, a, b))
+        return {"kind": "uf", "n": n, "ops": ops, "fresh_ints": True}
     if stratum == "uf-tournament":
         # several maximal-height trees (binomial trees of 2**k elements built leader-with-leader, no reads in between),
         # then unions/queries that start from the deepest elements of one tree and reach into another tree:
@@ -143,12 +164,33 @@ def gen(stratum, rng, tier):
 
 # ---------------------------------------------------------------- shadow-model harness
 
-def _run_uf(n, ops, obs):
+def _recycle(got, obs):
+    """What the caller does with an answer is its own business (pop a representative from each set, re-use the list):
+    'queries never change later answers' includes answers that were handed out and then modified by their owner."""
+    try:
+        for c in list(got):
+            if isinstance(c, (set, list, dict)):
+                c.clear()
+        if isinstance(got, (list, set, dict)):
+            got.clear()
+            if isinstance(got, list):
+                got.append({-1})
+        obs.event("uf.returned-containers-recycled")
+    except Exception:
+        pass
+
+
+def _fresh_int(i):
+    return int(str(i))  # equal value, new object (above the small-int cache): indices are compared, not identified
+
+
+def _run_uf(n, ops, obs, fresh_ints=False):
     uf = _ds.UnionFind(n)
     part = [{i} for i in range(n)]
+    home = {i: part[i] for i in range(n)}  # element -> its class (kept in step with `part`)
 
     def cls(x):
-        return next(s for s in part if x in s)
+        return home[x]
 
     merges = 0
     q_after = 0
@@ -157,10 +199,14 @@ def _run_uf(n, ops, obs):
             ca, cb = cls(a), cls(b)
             exp = ca is not cb
             if exp:
+                if len(cb) > len(ca):
+                    ca, cb = cb, ca
                 part.remove(cb)
                 ca |= cb
+                for e in cb:
+                    home[e] = ca
                 merges += 1
-            got = uf.union(a, b)
+            got = uf.union(_fresh_int(a), _fresh_int(b)) if fresh_ints else uf.union(a, b)
             if got != exp:
                 obs.violate("uf.union-return", f"op#{pos} union({a},{b}) returned {got}, model says {exp}")
         elif k == "f":
@@ -185,18 +231,27 @@ def _run_uf(n, ops, obs):
             got = uf.component_sizes()
             if sorted(got) != sorted(len(s) for s in part):
                 obs.violate("uf.component_sizes", f"op#{pos} {got}")
+            _recycle(got, obs)
             q_after += merges > 0
         elif k == "g":
             got = uf.get_components()
             if sorted(map(sorted, got)) != sorted(map(sorted, part)):
                 obs.violate("uf.get_components", f"op#{pos} {got}")
+            _recycle(got, obs)
             q_after += merges > 0
     # final full comparison (queries never change later answers)
-    for a in range(n):
-        for b in range(n):
-            if uf.connected(a, b) != (cls(a) is cls(b)):
-                obs.violate("uf.final-connected", f"connected({a},{b}) after history")
-                return merges, q_after
+    if n <= 64:
+        pairs = ((a, b) for a in range(n) for b in range(n))
+    else:
+        import random as _r
+
+        rr = _r.Random(n * 7919 + len(ops))
+        touched = sorted({x for _, a, b in ops for x in (a, b)})[:60]
+        pairs = [(a, b) for a in touched for b in touched[:12]] + [(rr.randrange(n), rr.randrange(n)) for _ in range(400)]
+    for a, b in pairs:
+        if uf.connected(a, b) != (cls(a) is cls(b)):
+            obs.violate("uf.final-connected", f"connected({a},{b}) after history")
+            return merges, q_after
     if uf.component_count != len(part):
         obs.violate("uf.final-count", f"{uf.component_count} vs {len(part)}")
     got = uf.component_sizes()
@@ -272,7 +327,8 @@ def run(case, obs):
 
     kind = case["kind"]
     if kind == "uf":
-        r = call(obs, _run_uf, case["n"], case["ops"], obs, what="UnionFind history")
+        r = call(obs, _run_uf, case["n"], case["ops"], obs, case.get("fresh_ints", False), what="UnionFind history",
+                 budget=max(4_000_000, 40_000 * case["n"]))
         if not isinstance(r, tuple):
             r = (0, 0)
         obs.nontrivial = r[0] >= 1 and r[1] >= 1
